@@ -195,10 +195,19 @@ def expected_view(p, whole):
             entry = {}
             for var in sub:
                 path = subtopo.get(var, [var])
-                entry[var] = getp(cval, path, KeyError)
+                entry[var] = project(sub[var], getp(cval, path, KeyError))
             out[child] = entry
         put(view, list(gview), out)
     return view
+
+
+def project(subschema, value):
+    """Restrict a child's value to the declared (possibly nested) sub-schema."""
+    if not isinstance(subschema, dict) or '_default' in subschema \
+            or not isinstance(value, dict):
+        return value
+    return {k: project(s, value.get(k, KeyError))
+            for k, s in subschema.items()}
 
 
 def run_static(spec, res):
